@@ -134,7 +134,7 @@ def stream_settings(ctx, res, printed):
                          tuple((rng.choice([0, 1, 2.5, 5, 10]), 2) for _ in range(4)) if pad else None,
                          (h, v), None)
                     cases.append((l, rng.random() < 0.5, False, (None, None)))
-    for _ in range(ctx.n(2500, 60000)):
+    for _ in range(ctx.n(2300, 60000)):
         r = rng.random()
         if r < 0.6:
             l = posgen.gen_layout(rng, (2,), p_none=0.25)
@@ -699,7 +699,7 @@ def stream_dfxp(ctx, res):
     rng = ctx.rng
     outcomes = {}
     level_sets = [("lang",), ("cap",), ("node",), ("lang", "cap"), ("lang", "node"), ("cap", "node"), ("lang", "cap", "node"), ()]
-    for i in range(ctx.n(450, 12000)):
+    for i in range(ctx.n(400, 12000)):
         levels = level_sets[i % len(level_sets)]
         rel = rng.random() < 0.7
         fit = rng.random() < 0.35
@@ -997,6 +997,103 @@ def stream_alignment_names(ctx, res):
         [n, len(cases), nw]
 
 
+# ------------------------------------------------------------------------------------------------ G
+def stream_style_alignment(ctx, res):
+    """round 4: caption sets WITH STYLES - a caption style / style class / style node carrying text-align - through
+    DFXPWriter -> DFXPReader; the alignment every word comes back with against model/DfxpStyleAlign.v (request 1216:
+    _find_attribute for tts:textAlign over the element, its parents and the region).  Property oracle where the statement
+    decides: no text-align style in charge, or one that names the layout's own horizontal alignment -> the layout's
+    alignment (absent parts start / after); a style that names ANOTHER alignment than the layout is compared with the
+    model only (TTML: the element's attribute wins; the statement is about layouts)."""
+    from pycaption import CaptionSet, CaptionList, Caption, CaptionNode
+    HA, VA = dfxpdoc7.HALIGN, dfxpdoc7.VALIGN
+
+    def lay_of(a, x):
+        return None if a == "none" else geom.mk_layout((((x, 2), (x, 2)), None, None, a, None))
+
+    def written(a):
+        """(textAlign, displayAlign) strings of the region made from a layout with alignment a (None: no Alignment object)"""
+        if a is None:
+            return ("start", "after")
+        return (None if a[0] is None else HA[a[0]], None if a[1] is None else VA[a[1]])
+    src = lambda own, styles=(): [None if own is None else Some(own), [None if v is None else Some(v) for v in styles]]  # noqa: E731
+    plain = src(None)
+    cases = []
+    for cap_al in (None, (0, 0), (2, 1), (1, None)):
+        for cap_style in [None] + [("own", n) for n in HA] + [("class", "center"), ("class", "end")]:
+            for span in [None] + [(ta, sl) for ta in (None, "right", "end") for sl in ("none", (0, 2))]:
+                cases.append((cap_al, cap_style, span))
+    reqs, metas = [], []
+    stats = {"round_trips": 0, "words_judged_by_the_statement": 0, "words_with_a_style_naming_another_alignment(model tie only)": 0}
+    for cap_al, cap_style, span in cases:
+        cl = lay_of(cap_al, 10)
+        nodes = [CaptionNode.create_text("w0", layout_info=None), CaptionNode.create_break()]
+        if span is not None:
+            ta, sl = span
+            sll = lay_of(sl, 40)
+            content = {"italics": True}
+            if ta:
+                content["text-align"] = ta
+            nodes += [CaptionNode.create_style(True, dict(content), layout_info=sll), CaptionNode.create_text("w1", layout_info=sll),
+                      CaptionNode.create_style(False, dict(content), layout_info=sll)]
+        else:
+            nodes.append(CaptionNode.create_text("w1", layout_info=None))
+        style, styles = {}, {}
+        if cap_style and cap_style[0] == "own":
+            style = {"text-align": cap_style[1]}
+        elif cap_style:
+            style, styles = {"class": "c1"}, {"c1": {"text-align": cap_style[1]}}
+        cs = CaptionSet({"en-US": CaptionList([Caption(2000000, 3500000, nodes, style=style, layout_info=cl)])}, styles=styles)
+        r = impl.call(lambda: DFXPReader().read(DFXPWriter(relativize=False, fit_to_screen=False).write(cs)))
+        res["evaluations"] += 1
+        stats["round_trips"] += 1
+        inp = [cap_al, cap_style, span]
+        if isinstance(r, Err):
+            res["violations"].append({"kind": "dfxp-roundtrip-raises", "replay": "style-align", "input": inp, "impl_obs": repr(r),
+                                      "what": f"DFXP write+read of a caption with style {style!r} / classes {styles!r} raised {r!r}"})
+            continue
+        obs = {}
+        for n in r.v.get_captions("en-US")[0].nodes:
+            if n.type_ == 1:
+                al = None if n.layout_info is None or n.layout_info.alignment is None else geom.w_alignment(n.layout_info.alignment)
+                obs[n.content.strip()] = None if al is None else tuple(None if x is None else x.v for x in al)
+        # sources: <p> (own attribute from the caption style, or the referenced class style; without any set-level style the
+        # default style is referenced and carries no text-align), <span> (own attribute from the node content)
+        p_src = src(cap_style[1], ()) if cap_style and cap_style[0] == "own" else \
+            (src(None, (cap_style[1],)) if cap_style else src(None, (None,)))
+        p_region = written(cap_al)
+        words = [("w0", p_src, [plain, plain, plain], p_region, cap_style[1] if cap_style else None, cap_al)]
+        if span is not None:
+            ta, sl = span
+            reg = written(None if sl == "none" else sl) if sl != "none" else p_region
+            words.append(("w1", src(ta), [p_src, plain, plain, plain], reg, ta or (cap_style[1] if cap_style else None),
+                          cap_al if sl == "none" else sl))
+        else:
+            words.append(("w1", p_src, [plain, plain, plain], p_region, cap_style[1] if cap_style else None, cap_al))
+        for wd, el, parents, reg, style_name, region_al in words:
+            reqs.append((1216, [Some(el), parents, src(reg[0]), src(reg[1])]))
+            metas.append((inp, wd, obs.get(wd, "missing"), style_name, region_al))
+    for (inp, wd, o, style_name, region_al), m in zip(metas, oracle_batch(reqs)):
+        mod = None if m == [] else tuple(None if x == [] else x[0] for x in m[0])
+        lay_h = 3 if region_al is None or region_al[0] is None else region_al[0]
+        lay_v = 2 if region_al is None or region_al[1] is None else region_al[1]
+        if style_name is None or HA.index(style_name) == lay_h:
+            stats["words_judged_by_the_statement"] += 1
+            if o != (lay_h, lay_v):
+                res["violations"].append({"kind": "dfxp-style-alignment", "replay": "style-align", "input": inp, "word": wd,
+                                          "impl_obs": repr(o),
+                                          "what": f"caption layout alignment / caption style / span = {inp!r}: the word {wd!r} comes back "
+                                                  f"with alignment {o!r} (member indices), its layout says {(lay_h, lay_v)!r} and no "
+                                                  f"style says otherwise"})
+                continue
+            res["nontrivial"].add(("style-align", repr(inp), wd))
+        else:
+            stats["words_with_a_style_naming_another_alignment(model tie only)"] += 1
+        if o != mod:
+            res["disagreements"].append({"stream": "style-align", "input": inp, "word": wd, "impl": repr(o), "model": repr(mod)})
+    res["distribution"]["style_carried_alignment(caption style / class / span text-align x layout alignment, DFXP round trip vs request 1216)"] = stats
+
+
 NEAR_TIES = [0]
 READER = [0]
 SET_FALLBACK = [0]
@@ -1024,7 +1121,7 @@ def close_layout(a, b, tol=Fraction(1, 10**9)):
 def run(ctx):
     from props.C13 import Printed
     res = {"evaluations": 0, "nontrivial": set(), "violations": [], "disagreements": [], "distribution": {},
-           "streams": 6, "notes": []}
+           "streams": 7, "notes": []}
     printed = Printed()
     stream_settings(ctx, res, printed)
     stream_vtt(ctx, res, printed)
@@ -1032,6 +1129,7 @@ def run(ctx):
     stream_history(ctx, res, printed)
     stream_same_writer(ctx, res, printed)
     stream_alignment_names(ctx, res)
+    stream_style_alignment(ctx, res)
     res["distribution"]["vtt_timing_lines_whose_kept_settings_are_the_reader_model's(request 1213)"] = READER[0]
     res["distribution"]["dfxp_written_document_vs_model(request 1211; lxml as an independent observer)"] = dict(DOCS)
     res["rule"] = ("settings: all 6x4 alignment pairs x padding/extent presence on a value grid + random layouts (percent, absolute "
